@@ -1,0 +1,79 @@
+//go:build verif
+
+// Contracts for govc (see /verif/DESIGN.md). Comment-only: compiled only with -tags verif.
+package prefilter
+
+// ---- interface contract (C16): Find returns the smallest position >= start at which one of the prefilter's
+// literals occurs, or -1 when none occurs. pfOcc is the abstract "a literal of p occurs at i" predicate; each
+// implementation below is proved against its own closed form of pfOcc. ----
+
+//@ uninterpreted spec func pfOcc(p Prefilter, h []byte, i int) bool
+//@ spec func pfFirst(p Prefilter, h []byte, start int, r int) bool = (r == -1 ==> (forall i :: start <= i && 0 <= i && i < len(h) ==> !pfOcc(p, h, i))) && (r != -1 ==> start <= r && 0 <= r && r < len(h) && pfOcc(p, h, r) && (forall i :: start <= i && 0 <= i && i < r ==> !pfOcc(p, h, i)))
+
+//@ trusted func (Prefilter).Find
+//@   opt recv=p
+//@   requires start >= 0
+//@   ensures pfFirst(p, haystack, start, result)
+
+//@ func (*memchrPrefilter).Find
+//@   props C16 C07 C05
+//@   requires p != nil
+//@   ensures start < 0 ==> result == -1
+//@   ensures start >= 0 && result == -1 ==> (forall i :: start <= i && i < len(haystack) ==> haystack[i] != p.needle)
+//@   ensures result != -1 ==> start <= result && 0 <= start && result < len(haystack) && haystack[result] == p.needle && (forall i :: start <= i && 0 <= i && i < result ==> haystack[i] != p.needle)
+
+//@ func (*memmemPrefilter).Find
+//@   props C16 C07 C05
+//@   requires p != nil && len(p.needle) > 0
+//@   ensures start < 0 ==> result == -1
+//@   ensures start >= 0 && result == -1 ==> (forall i :: start <= i ==> !occAt(haystack, p.needle, i))
+//@   ensures result != -1 ==> start <= result && 0 <= start && occAt(haystack, p.needle, result) && (forall i :: start <= i && i < result ==> !occAt(haystack, p.needle, i))
+//@   after call 1: forall j :: j >= start ==> occAt(haystack, p.needle, j) == occAt(haystack[start:], p.needle, j - start)
+
+//@ func (*DigitPrefilter).Find
+//@   props C16 C07 C05
+//@   ensures result == -1 ==> (forall i :: start <= i && 0 <= i && i < len(haystack) ==> !isDigit(haystack[i])) || start < 0
+//@   ensures result != -1 ==> start <= result && 0 <= start && result < len(haystack) && isDigit(haystack[result]) && (forall i :: start <= i && i < result ==> !isDigit(haystack[i]))
+
+//@ func (*incompleteWrapper).Find
+//@   props C16 C07
+//@   requires w != nil && start >= 0
+//@   ensures pfFirst(w.inner, haystack, start, result)
+
+// (?m)^ wrapper: the first inner candidate that sits at a line start
+//@ spec func lineStart(h []byte, i int) bool = i == 0 || (0 < i && i <= len(h) && h[i-1] == '\n')
+//@ func (*lineAnchorWrapper).Find
+//@   props C16 C07 C05
+//@   requires w != nil && start >= 0
+//@   ensures result == -1 ==> (forall i :: start <= i && i < len(haystack) ==> !(pfOcc(w.inner, haystack, i) && lineStart(haystack, i)))
+//@   ensures result != -1 ==> start <= result && result < len(haystack) && pfOcc(w.inner, haystack, result) && lineStart(haystack, result) && (forall i :: start <= i && i < result ==> !(pfOcc(w.inner, haystack, i) && lineStart(haystack, i)))
+//@   loop 1: invariant start <= pos
+//@   loop 1: invariant forall i :: start <= i && i < pos ==> !(pfOcc(w.inner, haystack, i) && lineStart(haystack, i))
+//@   loop 1: decreases len(haystack) - pos
+
+// ---- Teddy (slim): soundness of every reported position/span and exactness of the scalar path ----
+
+//@ spec func wfTeddy(t *Teddy) bool = t != nil && t.masks != nil && 0 <= t.minLen && len(t.patterns) <= 4096 && (forall b, j :: 0 <= b && b < len(t.buckets) && 0 <= j && j < len(t.buckets[b]) ==> 0 <= t.buckets[b][j] && t.buckets[b][j] < len(t.patterns)) && (forall k :: 0 <= k && k < len(t.patterns) ==> len(t.patterns[k]) >= t.minLen && len(t.patterns[k]) >= 1)
+//@ spec func teddyOcc(t *Teddy, h []byte, i int) bool = exists k :: 0 <= k && k < len(t.patterns) && occAt(h, t.patterns[k], i)
+
+//@ func (*Teddy).verifyBucket
+//@   props C16 C07 C05
+//@   requires wfTeddy(t)
+//@   ensures result0 == -1 || (result0 == pos && 0 <= result1 && result1 < len(t.patterns) && occAt(haystack, t.patterns[result1], pos))
+//@   ensures result0 == -1 ==> result1 == -1
+//@   loop 1: invariant -1 <= rangeindex && rangeindex <= rangelen && rangelen <= 281474976710656 && 0 <= bucket && bucket < len(t.buckets) && rangelen == len(t.buckets[bucket])
+//@   loop 1: invariant forall j :: 0 <= j && j < rangelen ==> 0 <= t.buckets[bucket][j] && t.buckets[bucket][j] < len(t.patterns)
+//@   loop 1: decreases rangelen - rangeindex
+
+//@ func (*Teddy).findScalar
+//@   props C16 C07 C05
+//@   requires wfTeddy(t) && 0 <= start && start <= 140737488355328 && len(haystack) <= 140737488355328
+//@   ensures result == -1 ==> (forall i :: 0 <= i ==> !teddyOcc(t, haystack, i))
+//@   ensures result != -1 ==> start <= result && teddyOcc(t, haystack, result - start) && (forall i :: 0 <= i && i < result - start ==> !teddyOcc(t, haystack, i))
+//@   loop 1: invariant 0 <= i
+//@   loop 1: invariant forall j :: 0 <= j && j < i ==> !teddyOcc(t, haystack, j)
+//@   loop 1: decreases len(haystack) - t.minLen + 1 - i
+//@   loop 2: invariant -1 <= rangeindex && rangeindex <= rangelen && rangelen == len(t.patterns) && 0 <= i && i < len(haystack) - t.minLen + 1
+//@   loop 2: invariant forall k :: 0 <= k && k <= rangeindex ==> !occAt(haystack, t.patterns[k], i)
+//@   loop 2: invariant forall j :: 0 <= j && j < i ==> !teddyOcc(t, haystack, j)
+//@   loop 2: decreases rangelen - rangeindex
